@@ -153,6 +153,14 @@ impl IrrDb {
         if let Some(rest) = q.strip_prefix("!i") {
             let name = rest.trim_end_matches(",1");
             let upper = name.to_uppercase();
+            if !rest.ends_with(",1") {
+                // without ",1" IRRd lists the direct members as they are written in the object
+                let direct = if upper.starts_with("RS-") { self.route_sets.get(&upper) } else { self.as_sets.get(&upper) };
+                return Some(match direct {
+                    Some(m) => Self::data(m),
+                    None => "D\n".into(),
+                });
+            }
             if upper.starts_with("RS-") {
                 return Some(match self.rs_members(name) {
                     Some(m) => Self::data(&m),
